@@ -29,7 +29,7 @@ PROPERTY = 'C03'
 LEAN_LEMMAS = ['sweep_balance']        # /verif/lean/Ghost.lean, checked in the thorough tier
 FUNCTIONS = ['dassh.power:_integrate', 'dassh.power:AssemblyPower.presweep_setup', 'dassh.power:AssemblyPower.get_power_sweep',
              'dassh.power:AssemblyPower._calculate_pdist', 'dassh.power:AssemblyPower.__init__',
-             'dassh.reactor:Reactor._setup_scale_asm_power', 'dassh.assembly:Assembly.calculate (power tally)', 'dassh.assembly:Assembly._identify_active_region']
+             'dassh.reactor:Reactor._setup_scale_asm_power', 'dassh.reactor:Reactor._setup_asm_power (user power)', 'dassh.assembly:Assembly.calculate (power tally)', 'dassh.assembly:Assembly._identify_active_region']
 ASSUMPTIONS = ['axial mesh planes lie on every power-cell boundary and on the pin-bundle bounds (post-condition of the '
                'axial mesh, C05): the steps partition each power cell',
                'power-cell boundaries are on the 1e-10 cm rounding grid of AssemblyPower.__init__ and step midpoints on '
@@ -250,6 +250,71 @@ def init_scale(S, cfg):
 init_scale.cname = 'AssemblyPower.__init__'
 
 
+class _Inp:
+    def __init__(self, data):
+        self.data = data
+
+
+def asm_power_total(S, cfg):
+    """Reactor._setup_asm_power, user-power branch: the total assigned to an assembly is the integral of its
+    cell-average linear power over power cells of UNEQUAL widths; Reactor.total_power is their sum (x scaling)"""
+    from dassh import reactor
+    sym = S.mode == 'sym'
+    n_cells, empty = cfg['n_cells'], cfg.get('empty', False)
+    pscalar = S.pos('power_scaling_factor', 0.2, 3.0)
+    ptot = S.pos('total_power', 1e3, 1e4) if cfg.get('user_total', False) else None
+    r = reactor.Reactor.__new__(reactor.Reactor)
+    user, by_pos, want, meshes, avgs = [], [], [], [], []
+    for i, nc in enumerate(n_cells):
+        if empty and i == 1:
+            by_pos.append([])
+            want.append(None)
+            meshes.append(None)
+            avgs.append(None)
+            continue
+        z, zs = 0, [0]
+        for c in range(nc):
+            z = z + S.pos(f'w{i}_{c}', 0.05, 0.6)
+            zs.append(z)
+        zfm = np.array(zs, dtype=object if sym else float)
+        avg = S.vec(f'avg{i}', nc, 'pos', 1.0, 5.0)
+        prof = {'pins': S.vec(f'pins{i}', (nc, 2, 2), 'real', 1.0, 3.0), 'cool': S.vec(f'cool{i}', (nc, 1, 2), 'real', 0.1, 0.3),
+                'avg_power': avg, 'zfm': zfm}
+        user.append((i + 1, prof))
+        by_pos.append([f'type{i}', (0, 0, i), {}])
+        tot = 0
+        for c in range(nc):
+            tot = tot + (zs[c + 1] - zs[c]) * avg[c]
+        want.append(tot)
+        meshes.append(zfm)
+        avgs.append(avg.copy())
+    r.power = {'user': user[::-1] if cfg.get('reversed', False) else user}
+    inp = _Inp({'Assignment': {'ByPosition': by_pos}, 'Power': {'total_power': ptot, 'power_scaling_factor': pscalar}})
+    out = r._setup_asm_power(inp)
+    core = 0
+    for w in want:
+        if w is not None:
+            core = core + w
+    factor = (ptot / core if ptot is not None else 1) * pscalar
+    S.holds('asm_power.one_entry_per_position', len(out) == len(n_cells))
+    acc = 0
+    for i in range(len(n_cells)):
+        if want[i] is None:
+            S.holds(f'asm_power.empty_position[{i}]', out[i] == [])
+            continue
+        S.eq(f'asm_power.total_is_integral_of_cell_averages[{i}]', out[i][2], want[i] * factor)
+        S.eq(f'asm_power.avg_profile[{i}]', out[i][1], avgs[i] * factor)
+        S.holds(f'asm_power.mesh_is_its_own[{i}]', out[i][3] is meshes[i])
+        acc = acc + out[i][2]
+    S.eq('asm_power.core_total_is_sum', r.total_power, acc)
+    S.eq('asm_power.core_total', r.total_power, (ptot if ptot is not None else core) * pscalar)
+    S.eq('canary.asm_power_mean_times_length', out[0][2],
+         sum(avgs[0][c] for c in range(n_cells[0])) / n_cells[0] * (meshes[0][-1] - meshes[0][0]) * factor, canary=True)
+
+
+asm_power_total.cname = 'Reactor._setup_asm_power'
+
+
 class _RegionRec:
     def __init__(self):
         self.calls = []
@@ -401,6 +466,8 @@ def configs(tier):
            (scale_core, dict(n_asm=2)), (scale_core, dict(n_asm=3, user_total=False)),
            (scale_core, dict(n_asm=3, empty=True)), (scale_core, dict(n_asm=2, scaled=False)),
            (init_scale, dict()),
+           (asm_power_total, dict(n_cells=[2, 3])), (asm_power_total, dict(n_cells=[3, 1, 2], empty=True, reversed=True)),
+           (asm_power_total, dict(n_cells=[2, 2], user_total=True)),
            (assembly_tally, dict(components=('pins', 'cool', 'duct'))), (assembly_tally, dict(components=('refl',))),
            (assembly_tally, dict(components=('pins',), explicit_z=True)),
            (region_matches_power, dict(bundle='middle')), (region_matches_power, dict(bundle='bottom')),
